@@ -425,11 +425,11 @@ Proof.
     destruct (N.eqb_spec i (dr_idx rq)) as [Ei | Hni].
     + destruct HS as [HS | HS]; [|exfalso; apply (HS _ Ho); congruence]. specialize (HS (eq_sym Ei)).
       destruct cs.
-      1,2,3,5: unfold fdd_ghost; rewrite HS, Ho, qo_app, <- Ei, <- El, Hl2, qo_map_fwd;
+      all: try solve [apply fdd_full_same in H; subst st'; unfold fdd_ghost; rewrite HS, Ho; cbv beta iota;
+        rewrite <- (app_nil_r (WindowFrame.out_of st (o_link o))) at 2; rewrite skipn_length_app; reflexivity].
+      all: unfold fdd_ghost; rewrite HS, Ho; cbv beta iota zeta; rewrite qo_app, <- Ei, <- El, Hl2, qo_map_fwd;
         (replace (qo L i _) with (@nil N); [reflexivity|]);
         destruct (nget (r_datalog st) i) as [d|]; [|reflexivity]; destruct (stale (d_log d) (dr_cursor rq)); reflexivity.
-      apply fdd_full_same in H. subst st'. unfold fdd_ghost. rewrite HS, Ho.
-      rewrite <- (app_nil_r (WindowFrame.out_of st (o_link o))) at 2. rewrite skipn_length_app. reflexivity.
     + apply qo_other_idx. intros id0 k f j a Hin. apply fdd_ghost_key in Hin as (_ & o0 & _ & _ & _ & ->). congruence.
   - rewrite (Hoth _ Hne) in Ho2. destruct (HW _ _ Ho2 Hl2) as (l1 & E). exists l1. rewrite E.
     rewrite (qo_other_link L i (fdd_ghost st id rq st' cs)); [now rewrite app_nil_r|].
@@ -449,11 +449,11 @@ Lemma consume_loop_wi id : forall fuel st requests skipped st' evs tr,
   consume_loop_d fuel st id requests skipped = Ok (st', evs) -> WI st' (tr ++ evs).
 Proof.
   induction fuel as [|fuel IH]; cbn [consume_loop_d]; intros st requests skipped st' evs tr HL HW HS H.
-  - apply bind_ok in H as (s & H1 & H). inv_ok. apply wi_frame; [|reflexivity|exact HW].
+  - apply bind_ok in H as (s & H1 & H). inv_ok. apply (wi_frame st); [|reflexivity|exact HW].
     apply wsuf_wsufn, wsuf_eq, keep_obufs. eapply trackv_keep; exact H1.
   - destruct requests as [|rq rest].
     + apply bind_ok in H as (st1 & H1 & H). apply bind_ok in H as (s & H2 & H). inv_ok.
-      apply wi_frame; [|reflexivity|exact HW]. apply wsuf_wsufn, wsuf_eq.
+      apply (wi_frame st); [|reflexivity|exact HW]. apply wsuf_wsufn, wsuf_eq.
       rewrite (keep_obufs _ _ (trackv_keep _ _ _ _ H2)). destruct skipped; [|now inv_ok]. apply keep_obufs. eapply pause_keep; exact H1.
     + inversion HS as [|? ? Hrq Hrest]; subst.
       apply bind_ok in H as ([[st1 rq'] status] & H1 & H).
@@ -464,8 +464,8 @@ Proof.
       assert (Hrq' : SweepOk st1 id rq') by (eapply sweepok_step; eassumption).
       assert (Hrest1 : Forall (SweepOk st1 id) rest).
       { revert Hrest. apply Forall_impl. intros r Hr. eapply sweepok_step; [exact A1|reflexivity|reflexivity|exact Hr]. }
-      assert (Hkeep : forall s2 s3 evs3, keep s2 = keep st1 -> Forall (SweepOk s2 id) (rest ++ [rq'])  /\ Forall (SweepOk s2 id) rest /\ LinkInv s2 /\ WI s2 (tr ++ fdd_ghost st id rq st1 status)).
-      { intros s2 _ _ K. assert (X : forall r, SweepOk st1 id r -> SweepOk s2 id r).
+      assert (Hkeep : forall s2, keep s2 = keep st1 -> Forall (SweepOk s2 id) (rest ++ [rq'])  /\ Forall (SweepOk s2 id) rest /\ LinkInv s2 /\ WI s2 (tr ++ fdd_ghost st id rq st1 status)).
+      { intros s2 K. assert (X : forall r, SweepOk st1 id r -> SweepOk s2 id r).
         { intros r [Hr | Hr]; [now left|right]. intros o Ho. rewrite (keep_obufs _ _ K) in Ho. now apply Hr. }
         split; [apply Forall_app; split; [|constructor; [|constructor]]|split; [|split]].
         - revert Hrest1. apply Forall_impl. exact X. - now apply X. - revert Hrest1. apply Forall_impl. exact X.
@@ -478,13 +478,13 @@ Proof.
       * apply bind_ok in H as (st2 & H2 & H). apply bind_ok in H as (s & H3 & H). inv_ok. eapply Hfin; eassumption.
       * apply bind_ok in H as (st2 & H2 & H). apply bind_ok in H as (s & H3 & H). inv_ok. eapply Hfin; eassumption.
       * apply bind_ok in H as (st2 & H2 & H). apply bind_ok in H as ([s evs2] & H3 & H). inv_ok.
-        destruct (Hkeep st2 st2 [] (park_keep _ _ _ _ H2)) as (_ & F2 & L2 & W2).
+        destruct (Hkeep st2 (park_keep _ _ _ _ H2)) as (_ & F2 & L2 & W2).
         rewrite app_assoc. eapply IH; [exact L2|exact W2|exact F2|exact H3].
       * apply bind_ok in H as ([s evs2] & H3 & H). inv_ok.
-        destruct (Hkeep st1 st1 [] eq_refl) as (F2 & _ & L2 & W2).
+        destruct (Hkeep st1 eq_refl) as (F2 & _ & L2 & W2).
         rewrite app_assoc. eapply IH; [exact L2|exact W2|exact F2|exact H3].
       * apply bind_ok in H as ([s evs2] & H3 & H). inv_ok.
-        destruct (Hkeep st1 st1 [] eq_refl) as (_ & F2 & L2 & W2).
+        destruct (Hkeep st1 eq_refl) as (_ & F2 & L2 & W2).
         rewrite app_assoc. eapply IH; [exact L2|exact W2|exact F2|exact H3].
 Qed.
 
